@@ -123,7 +123,14 @@ pub fn eval_text<I: Inputs>(vt: &'static Vt<I>, t: &Text) -> Outcome {
     };
     // independent cross-check of the verdict with the model (the constructor is C01's subject)
     let _ = model::sanitize::<I>;
+    I::parse_calls_reset_();
     let got = no_panic(|| fs(s));
+    // the inner type's parser may be neither pure nor cheap: one call of from_str runs it exactly once
+    if let Some(n) = I::parse_calls_() {
+        if n != 1 {
+            return Outcome::fail(true, class, format!("C06|{}|inner-parser-run-{}-times|sans={}|vals={}", I::NAME, if n == 0 { "zero".to_string() } else { n.to_string() }, san_names(m), val_names(m)), "the inner FromStr runs once".into(), format!("it ran {n} times for {s:?}"));
+        }
+    }
     let sig = |w: &str| format!("C06|{}|{w}|sans={}|vals={}", I::NAME, san_names(m), val_names(m));
     let show = |o: &FsOut<I>| match o {
         FsOut::Ok(v) => format!("Ok({})", v.to_json()),
